@@ -36,6 +36,7 @@ ASSUMPTIONS = [
 SIGNATURES = {}
 
 POOL = ["a", "b", "c", "Ch", "d"]
+AUTO = ["Cells1", "Cells2", "Space1"]      # names the library picks by itself when none is given
 SPACES = ["S0", "S1", "S2"]
 PROBE = "zz_probe"
 
@@ -54,9 +55,9 @@ def histories(draw):
     for p in paths:
         ops.append(["new_space_raw", [], p[0], None, None])
     for _ in range(draw(st.integers(10, 30))):
-        k = draw(st.integers(0, 17))
+        k = draw(st.integers(0, 20))
         p = draw(st.sampled_from(paths))
-        n = draw(st.sampled_from(POOL))
+        n = draw(st.sampled_from(POOL + AUTO if draw(st.integers(0, 4)) == 0 else POOL))
         if k <= 2:
             ops.append(["new_cells_raw", p, n, draw(st.sampled_from(["lambda: 1", "lambda x: x"]))])
         elif k <= 4:
@@ -92,6 +93,20 @@ def histories(draw):
                     paths.append(p + [n])
         elif k == 14:
             ops.append(["set_formula_raw", p, "lambda p: {'refs': {%r: p}}" % n])
+        elif k == 18:
+            # automatic names (CellsN / SpaceN) meeting members that already carry such a name in the chain
+            if draw(st.booleans()):
+                ops.append(["new_cells_raw", p, None, "lambda: 1"])
+            else:
+                ops.append(["new_space_raw", p, None, None, None])
+        elif k == 19:
+            # a new space that gets bases and references in one request
+            q = draw(st.sampled_from(paths))
+            ops.append(["new_space_raw", p, draw(st.sampled_from(POOL)), [q] if q != p else None, None,
+                        {n: draw(st.integers(20, 29))}])
+        elif k == 20:
+            q = draw(st.sampled_from(paths))
+            ops.append(["new_space_raw", [], draw(st.sampled_from(["T1", "T2"])), [q], None, {n: draw(st.integers(30, 39))}])
         elif k == 16:
             # object-valued reference in any mode (relative ones make later derivations fail part-way)
             q = draw(st.sampled_from(paths))
